@@ -193,6 +193,7 @@ func c14Affinities() []c14Pod {
 func c14Grid(t *testing.T, tier string, shard, shards int, c *h.Collector) {
 	if shard == 0 {
 		c14EndToEnd(t, c)
+		c14SharedPods(t, c)
 	}
 	labelF := controller.NewPodAffinityFilterFunc(c14Key, c14Val)
 	defF := controller.NewPodDefaultFilterFunc()
@@ -415,6 +416,52 @@ func c14EndToEnd(t *testing.T, c *h.Collector) {
 					c.Nontrivial(fmt.Sprint("e2e/", order[0].Opts.Name, attr, bind, phase))
 				}
 			}
+		}
+	}
+}
+
+// c14SharedPods: a pod that legitimately matches two labelled groups (one In expression listing both
+// values; or a node selector for one group and a required In expression for the other) counts toward
+// both, in whatever order the groups are configured.
+func c14SharedPods(t *testing.T, c *h.Collector) {
+	ga, gb := StdGroup("a"), StdGroup("b")
+	for _, g := range []*h.GroupSpec{&ga, &gb} {
+		g.Opts.MinNodes, g.Opts.MaxNodes = 0, 10
+		g.Opts.SlowNodeRemovalRate, g.Opts.FastNodeRemovalRate = 0, 0
+		g.Opts.ScaleUpThresholdPercent = 100000
+	}
+	for _, order := range [][]h.GroupSpec{{ga, gb}, {gb, ga}} {
+		for _, shape := range []string{"in-both", "selector-a-affinity-b"} {
+			order, shape := order, shape
+			s := &h.Scenario{Name: "c14.shared", Groups: order, Slots: 2, Quantum: Q,
+				Init: func(hh *h.Hist) {
+					for _, as := range InitASGs(hh) {
+						hh.W.AddNode(as, sim.NodeOpt{Age: 20 * Q})
+					}
+					o := sim.PodOpt{CPUMilli: 300, MemBytes: 64 << 20}
+					in := func(vals ...string) *v1.Affinity {
+						return &v1.Affinity{NodeAffinity: &v1.NodeAffinity{RequiredDuringSchedulingIgnoredDuringExecution: &v1.NodeSelector{NodeSelectorTerms: []v1.NodeSelectorTerm{
+							{MatchExpressions: []v1.NodeSelectorRequirement{{Key: ga.Opts.LabelKey, Operator: v1.NodeSelectorOpIn, Values: vals}}}}}}}
+					}
+					if shape == "in-both" {
+						o.Affinity = in(ga.Opts.LabelValue, gb.Opts.LabelValue)
+					} else {
+						o.Selector = sel(ga)
+						o.Affinity = in(gb.Opts.LabelValue)
+					}
+					hh.W.AddPod(o)
+				}}
+			hh := RunCase(t, s)
+			c.R.Evaluations++
+			c.R.Scans += hh.Scans
+			for _, name := range []string{"a", "b"} {
+				if got := gaugeValue(metrics.NodeGroupCPURequest.WithLabelValues(name)); got != 300 {
+					c.Report(h.Found{Violation: h.Violation{Prop: "C14", Sig: "C14/e2e-pod-matching-two-groups",
+						Msg: fmt.Sprintf("a 300m pod matching groups a and b (%s), groups configured as %s,%s: group %s reports %v m of requests", shape, order[0].Opts.Name, order[1].Opts.Name, name, got)},
+						Scenario: "c14.shared", Case: map[string]any{"order": []string{order[0].Opts.Name, order[1].Opts.Name}, "shape": shape}, Trace: append([]string(nil), hh.Trace...)})
+				}
+			}
+			c.Nontrivial(fmt.Sprint("shared/", order[0].Opts.Name, shape))
 		}
 	}
 }
